@@ -93,16 +93,14 @@ func fromStorage(e Expr, t *Type) Expr {
 	return &Bin{Op: "!=", L: e, R: z, Ty: t}
 }
 
-// toStorage converts an expression of type t to storageType(t).
+// toStorage converts an expression of type t to storageType(t). Booleans are stored through the
+// value conversion u32(b) / vecN<u32>(b) (true -> 1u), the most basic construct available, so that
+// a backend defect in select() does not hide every boolean-valued operator.
 func toStorage(e Expr, t *Type) Expr {
 	if t.S != Bool {
 		return e
 	}
-	st := storageType(t)
-	if t.K == TVec {
-		return &Call{Fn: "select", Args: []Expr{&Cons{Ty: st, Args: []Expr{LitU(0)}}, &Cons{Ty: st, Args: []Expr{LitU(1)}}, e}, Ty: st}
-	}
-	return &Call{Fn: "select", Args: []Expr{LitU(0), LitU(1), e}, Ty: st}
+	return &Cons{Ty: storageType(t), Args: []Expr{e}}
 }
 
 // PutU32 writes v at byte offset off.
